@@ -243,8 +243,29 @@ func runC08(c *Ctx, idx int, o *Obs) {
 		}
 		// CommonEdges
 		xa, xb := mustParse(a), mustParse(b)
-		xa.ReinitIndexes()
-		xb.ReinitIndexes()
+		if r.Intn(3) == 0 {
+			// the preparation CommonEdges documents (UpdateTipIndex, ClearBitSets, UpdateBitSet), on objects that
+			// were indexed in full before and re-rooted since (hash codes of another rooting are lying around)
+			for _, x := range []*tree.Tree{xa, xb} {
+				if r.Intn(2) == 0 {
+					x.ReinitIndexes()
+					var cand []*tree.Node
+					for _, nd := range innerNodes(x) {
+						if nd.Nneigh() >= 3 {
+							cand = append(cand, nd)
+						}
+					}
+					x.Reroot(cand[r.Intn(len(cand))])
+				}
+				x.UpdateTipIndex()
+				x.ClearBitSets()
+				x.UpdateBitSet()
+			}
+			o.Ev("CommonEdges_documented_preparation", 1)
+		} else {
+			xa.ReinitIndexes()
+			xb.ReinitIndexes()
+		}
 		ce1, cec, err := xa.CommonEdges(xb, tips)
 		o.Check(err == nil && ce1 == t1 && cec == cm, "common_edges", fmt.Sprintf("tips=%v: CommonEdges=(%d,%d,err %v), expected (%d,%d)", tips, ce1, cec, err, t1, cm), inp)
 
